@@ -294,6 +294,24 @@ def _end_of_data_fact(body, bb):
     return None
 
 
+def _all_emitted_fact(body, bb):
+    """a dominating `self.P == self.D.len()` (or >=) edge: the position field has reached the end of the data held in self"""
+    from ..mir import self_field_path
+    for f in facts_at(body, bb):
+        if f[0] not in ("Eq", "Ge", "Le"):
+            continue
+        for pos, ln in ((f[1], f[2]), (f[2], f[1])):
+            if f[0] == "Ge" and pos is not f[1]:
+                continue
+            if f[0] == "Le" and pos is not f[2]:
+                continue
+            pl = peel(ln, through_try=False)
+            fp = self_field_path(peel(pos, through_try=False))
+            if fp and pl.k == "call" and (pl.q or "").split("::")[-1] == "len" and pl.args and self_field_path(pl.args[0]):
+                return "self.%s == self.%s.len()" % (".".join(fp), ".".join(self_field_path(pl.args[0])))
+    return None
+
+
 def rule_r6(facts, col):
     """a file-backed source decides 'end of this repetition' only on read() == 0 or on its byte counter reaching 0 -
     never on a short read (a BufReader/pipe/socket returns short reads in the middle of the data)"""
@@ -301,8 +319,7 @@ def rule_r6(facts, col):
     for body in facts.impl_bodies(BLOCK_TRAIT, "work"):
         if body.self_adt not in rb:
             continue
-        if not any(list(b.calls_to(READ)) for b in [body] + adt_helpers(facts, body)):
-            continue
+        in_memory = not any(list(b.calls_to(READ)) for b in [body] + adt_helpers(facts, body))
         # again() sites: in work() itself, or in a helper of the same ADT (then judged at each of its call sites)
         sites = []
         for bb, t in body.calls_to(AGAIN):
@@ -314,7 +331,13 @@ def rule_r6(facts, col):
                         sites.append((body, bb, hb.q))
         for b2, bb, via in sites:
             key = "%s:again()%s@%s" % (body.q, (" via " + via.split("::")[-1]) if via else "", _short_guard(b2, bb))
-            why = _end_of_data_fact(b2, bb)
+            why = _all_emitted_fact(b2, bb) if in_memory else _end_of_data_fact(b2, bb)
+            if not why and in_memory:
+                col.bad("C16.R6", key, b2.where(bb),
+                        "the source counts a repetition as finished (Repeat::again()%s) on a path that is not behind `position == "
+                        "data.len()`: a repetition is counted (and the position reset) with data still unemitted, or never counted "
+                        "when the data ends" % ((" through " + via) if via else ""), {})
+                continue
             if why:
                 col.ok("C16.R6", key, b2.where(bb), "end of repetition decided on: %s" % why)
             else:
@@ -592,6 +615,76 @@ def rule_r9(facts, col, rule_id="C16.R9", scope=None):
 
 
 
+POSITIVE_CALLS = ("Sample::size",)     # size in bytes of a sample type: every impl returns size_of of a non-zero-sized number type
+
+
+def _established_positive(body, bb, x, lbs, depth=0):
+    """x >= 1 at bb: by a guard (known_ge), as len() of a window established non-empty, as a product of positives, as a
+    difference a - b under the guard b < a, or as the byte size of a sample type"""
+    from . import c09
+    if depth > 4:
+        return False
+    one = E("const", v=1, ty="usize")
+    if known_ge(body, bb, x, one):
+        return True
+    p = peel(x, through_try=False)
+    w = c09.len_of_window(p)
+    if w and lbs.get(w[0], 0) >= 1:
+        return True
+    if p.k == "call" and ((p.q or "").endswith(POSITIVE_CALLS) or (p.rq or "").endswith(POSITIVE_CALLS)):
+        return True
+    if p.k == "bin" and p.op == "Mul":
+        return _established_positive(body, bb, p.a, lbs, depth + 1) and _established_positive(body, bb, p.b, lbs, depth + 1)
+    if p.k == "bin" and p.op == "Sub":
+        for f in facts_at(body, bb):
+            if f[0] in ("Lt", "Gt"):
+                small, big = (f[1], f[2]) if f[0] == "Lt" else (f[2], f[1])
+                if same_expr(peel(small, through_try=False), peel(p.b, through_try=False)) and same_expr(peel(big, through_try=False), peel(p.a, through_try=False)):
+                    return True
+    if p.k == "call" and (p.q in MIN_CALLS or p.rq in MIN_CALLS):
+        return all(_established_positive(body, bb, a, lbs, depth + 1) for a in p.args)
+    return False
+
+
+def rule_r11(facts, col, rule_id="C16.R11"):
+    """read() == 0 means end of data only for a non-empty buffer: every io::Read::read() in a work() body is handed a buffer
+    whose length is established >= 1 at the call (a `vec![0; n]` with n >= 1 by a guard on that path, or by construction from
+    a window established non-empty).  With a zero-length buffer read() returns Ok(0) whatever the source still holds, and the
+    code that follows takes that for end of file / connection closed."""
+    from . import c09
+    for body in facts.impl_bodies(BLOCK_TRAIT, "work"):
+        k = 0
+        for bb, t in body.calls_to(READ):
+            if len(t["args"]) < 2 or t.get("sp", {}).get("x"):
+                continue
+            key = "%s:read#%d" % (body.q, k)
+            k += 1
+            buf = body.operand_expr(t["args"][1])
+            lbs = c09.window_lower_bounds(body, bb, facts)
+            sizes = [x for x in walk(buf) if x.k == "call" and x.q == FROM_ELEM and len(x.args) >= 2]
+            sub = [x for x in walk(buf) if x.k == "agg" and (x.adt or "").startswith("std::ops::Range") and x.adt != "std::ops::RangeFull"]
+            if sub or not sizes:
+                wins = [c09.window_of(x) for x in walk(buf)]
+                wins = [w for w in wins if w and w[1] == "W"]
+                if wins and not sub:
+                    if lbs.get(wins[0][0], 0) >= 1:
+                        col.ok(rule_id, key, body.where(bb), "reads straight into a write window established non-empty")
+                    else:
+                        col.bad(rule_id, key, body.where(bb), "read() is handed the write window of self.%s, which is not established non-empty on "
+                                "this path: with a full output read() returns 0 and that is taken for end of data" % wins[0][0], {})
+                else:
+                    col.silent(rule_id, key, body.where(bb), "read target is not a whole vec![0; n] staging buffer or write window")
+                continue
+            n = sizes[0].args[1]
+            if _established_positive(body, bb, n, lbs):
+                col.ok(rule_id, key, body.where(bb), "staging buffer length %s established >= 1" % show(peel(n, through_try=False))[:70])
+            else:
+                col.bad(rule_id, key, body.where(bb),
+                        "read() is handed a staging buffer of %s bytes, which is not established >= 1 on this path: a zero-length read "
+                        "returns Ok(0) whatever the source still holds, and the code that follows takes 0 for end of file (EOF "
+                        "verdict, or a rewind that burns a repetition)" % show(peel(n, through_try=False))[:90], {})
+
+
 # a body that raises an alarm as compiled is judged again on its work view (effects.view_fallback)
 rule_r2 = effects.view_fallback(rule_r2)
 rule_r5 = effects.view_fallback(rule_r5)
@@ -599,6 +692,7 @@ rule_r6 = effects.view_fallback(rule_r6)
 rule_r7 = effects.view_fallback(rule_r7)
 rule_r8 = effects.view_fallback(rule_r8)
 rule_r9 = effects.view_fallback(rule_r9)
+rule_r11 = effects.view_fallback(rule_r11)
 
 def run(ctx):
     facts = ctx.facts("default")
@@ -613,11 +707,16 @@ def run(ctx):
     rule_r8(facts, ctx)
     ctx.floor("C16.R8", 6, "done()/again() outcomes of the three finite sources + read()==0 of File/Tcp sources")
     rb = repeat_blocks(facts)
+    from . import c14, c19
+    c14.rule_r4(facts, c19._Retag(ctx, "C14.R4", "C16.R10"))   # a fast path that overtakes buffered bytes emits the file's bytes out of order
+    ctx.floor("C16.R10", 1, "FileSource fast path (same rule as C14.R4)")
     rule_r9(facts, ctx, scope=lambda b: b.self_adt in rb)
     ctx.floor("C16.R9", 5, "EOF verdicts of the three finite sources (8 today)")
+    rule_r11(facts, ctx)
+    ctx.floor("C16.R11", 2, "io::Read::read() sites with a staging buffer (FileSource, SigMFSource, TcpSource today)")
     rule_r7(facts, ctx)
     ctx.floor("C16.R7", 2, "rewinds of FileSource and SigMFSource")
-    ctx.floor("C16.R6", 2, "again() in FileSource::work (read()==0) and SigMFSource::work (left == 0)")
+    ctx.floor("C16.R6", 3, "again() in FileSource::work (read()==0), SigMFSource::work (left == 0) and VectorSource::work (pos == data.len())")
     ctx.floor("C16.R5", 2, "FileSource and SigMFSource read(2) staging buffers (TcpSource counted when present)")
     from .. import controls
     controls.expect(ctx, "C16.R2", rule_r2, "BadSource", "finite source that never asks done()")
